@@ -23,11 +23,77 @@ func returnsFreshMap(fn *ssa.Function) bool {
 			return false
 		}
 		n++
-		if _, isMake := ssax.Strip(vs[0]).(*ssa.MakeMap); !isMake {
-			ok = false
+		v := ssax.Strip(vs[0])
+		if _, isMake := v.(*ssa.MakeMap); isMake {
+			continue
 		}
+		// the copy may be made by a helper of the package that copies its parameter entry by entry
+		if c, isC := CallValue(v); isC && c.Static != nil && c.Static != fn && mapCopierParam(c.Static) >= 0 {
+			continue
+		}
+		ok = false
 	}
 	return ok && n > 0
+}
+
+// mapCopierParam: if fn returns, on every path, a map it makes itself and
+// fills entry by entry by ranging over one of its map parameters, the index of
+// that parameter; otherwise -1. Such a function only reads its parameter.
+func mapCopierParam(fn *ssa.Function) int {
+	if fn == nil || len(fn.Blocks) == 0 {
+		return -1
+	}
+	var mk *ssa.MakeMap
+	for _, vs := range ReturnedValues(fn) {
+		if len(vs) != 1 {
+			return -1
+		}
+		m, ok := ssax.Strip(vs[0]).(*ssa.MakeMap)
+		if !ok || (mk != nil && mk != m) {
+			return -1
+		}
+		mk = m
+	}
+	if mk == nil {
+		return -1
+	}
+	idx := -1
+	ssax.Instrs(fn, func(in ssa.Instruction) {
+		mu, ok := in.(*ssa.MapUpdate)
+		if !ok || ssax.Strip(mu.Map) != ssa.Value(mk) {
+			return
+		}
+		ek, ok1 := ssax.Strip(mu.Key).(*ssa.Extract)
+		ev, ok2 := ssax.Strip(mu.Value).(*ssa.Extract)
+		if !ok1 || !ok2 || ek.Tuple != ev.Tuple || ek.Index != 1 || ev.Index != 2 {
+			return
+		}
+		nx, ok := ek.Tuple.(*ssa.Next)
+		if !ok {
+			return
+		}
+		rg, ok := nx.Iter.(*ssa.Range)
+		if !ok {
+			return
+		}
+		for i, p := range fn.Params {
+			if ssax.Strip(rg.X) == ssa.Value(p) {
+				idx = i
+			}
+		}
+	})
+	if idx < 0 {
+		return -1
+	}
+	// the parameter is only read: range / len / lookup
+	for _, u := range usesOfMap(fn.Params[idx]) {
+		switch u.Kind {
+		case "range", "len", "lookup", "copy":
+		default:
+			return -1
+		}
+	}
+	return idx
 }
 
 // C17 — op ids unique, FContexts safe to share and clone.
@@ -161,7 +227,7 @@ func C17(ctx *core.Ctx) {
 						}
 						desc := fname + " › " + mu2.Kind + " on " + mf
 						switch mu2.Kind {
-						case "update", "delete", "lookup", "len":
+						case "update", "delete", "lookup", "len", "copy": // "copy": a synchronous call of a read-only copying helper, under the lock like a range
 							ctx.Check(ls.Holds(mu, write), "C17.R2", desc, r.IPos(mu2.Instr), need+" lock held",
 								"map "+mu2.Kind+" without the "+need+" lock "+mu)
 							ctx.Discharge("C17.R3", desc, r.IPos(mu2.Instr), "map stays inside the critical section")
@@ -437,6 +503,19 @@ func C17(ctx *core.Ctx) {
 					}
 				}
 			})
+			// or by a copying helper applied to the guarded field of the receiver
+			for _, c := range ssax.Calls(fn) {
+				if c.Static == nil {
+					continue
+				}
+				if pi := mapCopierParam(c.Static); pi >= 0 && pi < len(c.Common.Args) {
+					if u, ok := ssax.Strip(c.Common.Args[pi]).(*ssa.UnOp); ok && u.Op == token.MUL {
+						if fa, ok := u.X.(*ssa.FieldAddr); ok && IsParam(fa.X, fn, 0) {
+							filled = true
+						}
+					}
+				}
+			}
 			ctx.Check(fresh && filled, "C17.R5", ssax.Name(fn)+" › copying accessor", fnPos(r, fn),
 				"returns make(map) filled entry by entry from the receiver's field", "accessor does not return an entry-wise copy of the receiver's map")
 		}
